@@ -248,3 +248,9 @@ func (vc *VC) loopStoresField(li *loopInfo, fa *ssa.FieldAddr) bool {
 	}
 	return false
 }
+
+// closureRef: a function literal passed as an argument, and the VC in which its bindings live.
+type closureRef struct {
+	mc    *ssa.MakeClosure
+	owner *VC
+}
